@@ -22,7 +22,7 @@ theorem unaryOp_shapeB {e op t : String} {s s' : St} (h0 : s.funcs = []) (h : un
   obtain ⟨rfl, rfl⟩ := h1
   split at h
   · simp [bind, varEvaluation, Tr.get, addLine, h0, pure] at h
-    exact ⟨_, by rw [← h.2]; exact ⟨rfl, rfl, h0.symm, rfl, rfl, rfl, rfl, rfl, rfl, by simp [plainB]⟩⟩
+    exact ⟨_, by rw [← h.2]; exact ⟨rfl, rfl, h0.symm, rfl, rfl, rfl, rfl, rfl, rfl, by simp [plainB], EnvExt.of_eq rfl rfl rfl rfl rfl rfl rfl rfl rfl rfl⟩⟩
   · simp [Tr.fail] at h
 
 theorem binaryOp_shapeB {l op r t : String} {vt : ValueType} {s s' : St} (h0 : s.funcs = []) (h : binaryOp l op r vt s = .ok (t, s')) :
@@ -39,13 +39,13 @@ theorem binaryOp_shapeB {l op r t : String} {vt : ValueType} {s s' : St} (h0 : s
       simp only [hd] at h
       split at h
       · simp [bind, varEvaluation, Tr.get, addLine, h0, pure] at h
-        exact ⟨_, by rw [← h.2]; exact ⟨rfl, rfl, h0.symm, rfl, rfl, rfl, rfl, rfl, rfl, by simp [plainB]⟩⟩
+        exact ⟨_, by rw [← h.2]; exact ⟨rfl, rfl, h0.symm, rfl, rfl, rfl, rfl, rfl, rfl, by simp [plainB], EnvExt.of_eq rfl rfl rfl rfl rfl rfl rfl rfl rfl rfl⟩⟩
       · simp [Tr.fail] at h
     | string =>
       simp only [hd] at h
       split at h
       · simp [bind, varAssignment, varEvaluation, Tr.get, addLine, h0, pure] at h
-        exact ⟨_, by rw [← h.2]; exact ⟨rfl, rfl, h0.symm, rfl, rfl, rfl, rfl, rfl, rfl, by simp [plainB]⟩⟩
+        exact ⟨_, by rw [← h.2]; exact ⟨rfl, rfl, h0.symm, rfl, rfl, rfl, rfl, rfl, rfl, by simp [plainB], EnvExt.of_eq rfl rfl rfl rfl rfl rfl rfl rfl rfl rfl⟩⟩
       · simp [Tr.fail] at h
     | unknown => simp [hd, Tr.fail] at h
     | multiple => simp [hd, Tr.fail] at h
@@ -58,7 +58,7 @@ theorem comparisonOp_shapeB {l op r t : String} {vt : ValueType} {s s' : St} (h0
   split at h
   · simp [Tr.fail] at h
   · simp [bind, nextHelperVar, varEvaluation, Tr.get, addLine, h0, pure] at h
-    exact ⟨_, by rw [← h.2]; exact ⟨rfl, rfl, h0.symm, rfl, rfl, rfl, rfl, rfl, rfl, by simp [plainB]⟩⟩
+    exact ⟨_, by rw [← h.2]; exact ⟨rfl, rfl, h0.symm, rfl, rfl, rfl, rfl, rfl, rfl, by simp [plainB], EnvExt.of_eq rfl rfl rfl rfl rfl rfl rfl rfl rfl rfl⟩⟩
 
 theorem logicalOp_shapeB {l op r t : String} {s s' : St} (h0 : s.funcs = []) (h : logicalOp l op r s = .ok (t, s')) :
     ∃ line, Adv s s' [line] 1 := by
